@@ -464,6 +464,18 @@ func Discharge(obs []*Obligation, opt runOpts) []*ObResult {
 				j.res = SolveResult{Status: "error", Raw: "query exceeds size cap"}
 				return
 			}
+			if j.ob.WantSat {
+				// vacuity: only a proof of unsatisfiability counts against the precondition; a quantified
+				// precondition on which the solvers answer unknown is reported as "not refuted"
+				j.res = runOne(solvers[0], j.q, 3, false)
+				if j.res.Status != "sat" && j.res.Status != "unsat" {
+					r2 := runOne(solvers[2], j.q, 3, false)
+					if r2.Status == "sat" || r2.Status == "unsat" {
+						j.res = r2
+					}
+				}
+				return
+			}
 			j.res, j.all = solve(j.q, opt.timeoutS, opt.all)
 		}(j)
 	}
@@ -485,6 +497,10 @@ func Discharge(obs []*Obligation, opt runOpts) []*ObResult {
 		want := "unsat"
 		if j.ob.WantSat {
 			want = "sat"
+			if j.res.Status != "unsat" && j.res.Status != "sat" {
+				r.Solver = j.res.Solver + " (unknown: not refuted)"
+				continue
+			}
 		}
 		if j.res.Status == want {
 			if r.Solver == "" || r.Status == "discharged" {
